@@ -72,7 +72,7 @@ prop("C17", [H("H17_writeTo", quick={"wall": "100s", "shards": 2}), H("H17_persi
              H("H17_merge", common={"param": "mergeBuf=64"}, quick={"wall": "100s"})])
 prop("C18", [H("H18_cancel", quick={"wall": "100s"}), H("H18_vec", common={"vectors": True}, quick={"wall": "100s"})])
 prop("C20", [H("H20_refs", quick={"wall": "150s", "shards": 16, "param": "maxOps=8"}, thorough={"wall": "1500s", "shards": 16, "param": "maxOps=10"}), H("H20_openfail"), H("H20_lockset", common={"race": True})])
-prop("C10", [H("H10_effects", quick={"wall": "140s", "shards": 4}), H("H10_seq", quick={"wall": "140s", "shards": 16, "param": "aMax=1,bMax=1"}, thorough={"wall": "1500s", "shards": 16, "param": "aMax=2,bMax=2"}),
+prop("C10", [H("H10_effects", common={"race": True}, quick={"wall": "140s", "shards": 4}), H("H10_seq", quick={"wall": "140s", "shards": 16, "param": "aMax=1,bMax=1"}, thorough={"wall": "1500s", "shards": 16, "param": "aMax=2,bMax=2"}),
              # synonym batch after synonym batch on the pooled builder (fewer / more / equal numbers of terms)
              H("H10_syn", quick={"wall": "140s", "shards": 8}, thorough={"wall": "1500s", "shards": 16, "param": "aSyn=2,bSyn=2"})])
 prop("C09", [H("H06_large", quick={"wall": "140s", "shards": 6, "shard-depth": 3, "param": "nBlocks=3,nProbes=2"}, thorough={"skip": True}), H("K1_chunksize"), H("K1_chunktable"), H("K7_footer"), H("K6_boundaries"),
